@@ -115,6 +115,15 @@ def epoch(ctx, ws):
             continue
         # where the captured value comes from: a local of this function, or (private helper) of each caller
         sites = []
+        if cap.startswith("p:"):
+            # the closure may have been created inside an inlined helper: its capture is then a local of this function
+            nm = cap[2:]
+            for s_ in f.stmts.values():
+                if s_["k"] == "LambdaExpr" and g.id in s_.get("call_ops", []):
+                    for c_ in s_.get("caps", []):
+                        v_ = c_.get("var") or {}
+                        if v_.get("k") == "local" and (v_.get("name") == nm or v_.get("name", "").endswith("$" + nm)):
+                            cap = "l:" + v_["name"]
         if cap.startswith("l:"):
             sites.append((f, cap, None))
         else:
@@ -130,11 +139,20 @@ def epoch(ctx, ws):
                 ctx.broken("private helper %s with the wait has no caller" % top.name)
         for cf, var, call in sites:
             decl = None
-            for s_ in cf.stmts.values():
-                if s_["k"] == "DeclStmt":
-                    for d in s_["decls"]:
-                        if var and "l:" + d["name"] == var and path(cf, cf.s(d.get("init"))) == "this.generation_":
-                            decl = s_
+            for _hop in range(4):       # follow plain copies (a helper parameter bound to the caller's local)
+                nxt = None
+                for s_ in cf.stmts.values():
+                    if s_["k"] == "DeclStmt":
+                        for d in s_["decls"]:
+                            if var and "l:" + d["name"] == var and d.get("init"):
+                                ip = path(cf, cf.s(d["init"]))
+                                if ip == "this.generation_":
+                                    decl = s_
+                                elif ip and ip.startswith("l:") and not d.get("ref"):
+                                    nxt = ip
+                if decl is not None or nxt is None:
+                    break
+                var = nxt
             pts = _arrival_points(ctx, cf)
             ok = decl is not None and bool(pts) and all(cf.dominates(cf.pos_of(decl), cf.pos_of(p_)) and
                                                         cf.pos_of(decl) != cf.pos_of(p_) for p_, _k in pts)
